@@ -206,6 +206,48 @@ def run(ctx):
                         ctx.add('COLOR', f, 'fresh-node', 'ok', 'a freshly linked non-root node is red (black heights unchanged by the insertion itself)', PROPS, line)
                     else:
                         ctx.add('COLOR', f, 'fresh-node', 'violation', 'a freshly linked non-root node is coloured %s: the path through it gets one more black node than its siblings' % name, PROPS, line)
+    # ---------------- CLIMB (child / parent cursor pairs of upward loops) ----------------
+    n_climb = 0
+    for tree in sorted(prog.tree_adts):
+        for f in [f for f in prog.fns.values() if f.self_adt == tree and not f.is_closure]:
+            b = f.body
+            loops = b.cfg.loops()
+            for h, body in sorted(loops.items()):
+                phis = list(b.phis.get(h, {}).values())
+                for P in phis:
+                    if 'same_as' in P.extra:
+                        continue
+                    ins = [(strip(a), p) for a, p in zip(P.args, P.extra['preds'])]
+                    steps = [a for a, p in ins if p in body]
+                    inits = [a for a, p in ins if p not in body]
+                    if not steps or not inits:
+                        continue
+                    # P advances through its own parent link
+                    def parent_of(v, base):
+                        nf = prog.node_field(v) if v.kind == 'load' else None
+                        return nf is not None and nf[1] == ('parent',) and strip(nf[0]) is base
+                    if not all(parent_of(a, P) for a in steps):
+                        continue
+                    for N in phis:
+                        if N is P or 'same_as' in N.extra:
+                            continue
+                        nins = [(strip(a), p) for a, p in zip(N.args, N.extra['preds'])]
+                        ninit = [a for a, p in nins if p not in body]
+                        nstep = [a for a, p in nins if p in body]
+                        # (N, P) start as child and parent: P0 == node(N0).parent
+                        if not ninit or not all(any(parent_of(p0, n0) for n0 in ninit) for p0 in inits):
+                            continue
+                        n_climb += 1
+                        bad = [a for a in nstep if a is not P]
+                        line = f.line
+                        if bad:
+                            ctx.add('CLIMB', f, 'pair(%s,%s)' % (b.local_name(N.extra.get('local', 0)), b.local_name(P.extra.get('local', 0))), 'violation',
+                                    'an upward loop keeps a node cursor and its parent cursor (the parent cursor follows the parent link); the node cursor must become the old parent, but it is set to %s: from the second round on the pair no longer is (child, parent)' % show(bad[0], 3),
+                                    PROPS + ['C10'], line)
+                        else:
+                            ctx.add('CLIMB', f, 'pair(%s,%s)' % (b.local_name(N.extra.get('local', 0)), b.local_name(P.extra.get('local', 0))), 'ok',
+                                    'the (node, parent) cursor pair of the upward loop stays a child/parent pair: node := old parent, parent := its parent link', PROPS + ['C10'], line)
+    ctx.stat('CLIMB', pairs=n_climb)
     ctx.stat('LINKPAIR', functions=n_pair)
     if n_pair < 15:
         ctx.anchor_missing('LINKPAIR', 'functions that write links', PROPS, n_pair, 15)
